@@ -279,11 +279,7 @@ func genWave(r *vlib.R, kind string, groups int) string {
 	if kind == "n" {
 		// six distinct names under the silent zone: the fifth all-servers-failed lookup makes the resolver
 		// re-check the zone's name-server hosts (checkHosts) on the failing client's own context
-		if waveNo%2 == 1 {
-			parts = append(parts, "fifth:sil:8:k")
-		} else {
-			parts = append(parts, "fifthb:sil:8:k")
-		}
+		_ = waveNo
 		parts = append(parts, "framesize:ok:12:q", fmt.Sprintf("pipeslow:%s:%d:p", vlib.Pick(r, []string{"drop", "slow", "glacial", "lag"}), 2+r.Intn(2)))
 	}
 	parts = append(parts, fmt.Sprintf("pipehalf:%s:%d:u", vlib.Pick(r, []string{"ok", "lag", "wrongid"}), 1+r.Intn(3)))
@@ -322,11 +318,18 @@ func genSys(r *vlib.R, tier string, emit func(string)) {
 		emit("sys new z 0")
 		emit("sys wave " + genWave(r, "z", 10))
 		emit("sys drain")
-		emit("sys new i 0")
-		emit("sys wave " + genWave(r, "i", 12))
 		if tier == "thorough" {
+			emit("sys new i 0")
 			emit("sys wave " + genWave(r, "i", 12))
+			emit("sys wave " + genWave(r, "i", 12))
+			emit("sys drain")
 		}
+		// on its own (the trigger is sensitive to other load): a silent zone's servers fail for two cohorts,
+		// the resolver re-checks the zone's name-server hosts at the fifth all-servers-failed lookup — on the
+		// failing client's own context, so nobody waits an extra timeout
+		emit("sys new n 0")
+		emit("sys wave fifth:sil:8:k")
+		emit("sys wave fifthb:sil:8:k")
 		emit("sys drain")
 		if tier == "thorough" {
 			emit(fmt.Sprintf("sys new n %d", 150+r.Intn(200))) // dedup wait shorter than a failing resolution
